@@ -1156,6 +1156,15 @@ EGLPNUM_TYPENAME_QSLIB_INTERFACE int EGLPNUM_TYPENAME_QSadd_ranged_row (
 	rval = check_qsdata_pointer (p);
 	CHECKRVALG (rval, CLEANUP);
 
+	/* the batch routines take the sense as a char: a value that does not fit
+	 * is not a sense, whatever its low byte says */
+	if (sense < 0 || sense > 127)
+	{
+		QSlog("illegal sense %d", sense);
+		rval = 1;
+		goto CLEANUP;
+	}
+
 	vmatcnt[0] = cnt;
 	vmatbeg[0] = 0;
 	vsense[0] = sense;
@@ -1233,6 +1242,15 @@ EGLPNUM_TYPENAME_QSLIB_INTERFACE int EGLPNUM_TYPENAME_QSadd_row (
 
 	rval = check_qsdata_pointer (p);
 	CHECKRVALG (rval, CLEANUP);
+
+	/* the batch routines take the sense as a char: a value that does not fit
+	 * is not a sense, whatever its low byte says */
+	if (sense < 0 || sense > 127)
+	{
+		QSlog("illegal sense %d", sense);
+		rval = 1;
+		goto CLEANUP;
+	}
 
 	vmatcnt[0] = cnt;
 	vmatbeg[0] = 0;
@@ -1609,6 +1627,15 @@ EGLPNUM_TYPENAME_QSLIB_INTERFACE int EGLPNUM_TYPENAME_QSchange_sense (
 
 	rval = check_qsdata_pointer (p);
 	CHECKRVALG (rval, CLEANUP);
+
+	/* the batch routines take the sense as a char: a value that does not fit
+	 * is not a sense, whatever its low byte says */
+	if (sense < 0 || sense > 127)
+	{
+		QSlog("illegal sense %d", sense);
+		rval = 1;
+		goto CLEANUP;
+	}
 
 	vrowlist[0] = rowindex;
 	vsenselist[0] = sense;
